@@ -13,6 +13,7 @@ CONSTANTS
   Policies = {"seq", "conc"}
   ListFaults <- MCFaults
   MTs = {"image"}
+  WriteFaults = FALSE
   Depth = 0
 INVARIANTS TypeOK
 PROPERTIES UnionView TagConflictNeverSilent WriteBoth ReadsChangeNothing PoliciesAgree
